@@ -30,6 +30,15 @@ func genFor(model string) func(t *rapid.T) Case {
 		}
 		c := Case{A: simref.DrawCellCase(t, name, 2, 80)}
 		T := c.A.T()
+		if name == "Sacramento" {
+			// Sacramento keeps its two lower-zone free-water stores multiplied by (1+side) inside a call and divides
+			// on return: a carried value differs from the one kept inside an uninterrupted call by up to an ulp
+			// (round-off the property allows), and the kernel's integer number of increments per step turns an ulp
+			// into a visible jump now and then (9e-9 relative seen in a store, 3e-8 in actualET).  With 1+side a power
+			// of two the scaling is exact and split and uninterrupted runs can be compared at round-off level, so the
+			// hot-start cases use side 0 or 1 (a missing or wrong scaling shows with side 1 as with any other).
+			c.A.Cell[simref.ParamIndex(simref.New(name).Description(), "side")] = []float64{rapid.SampledFrom([]float64{0, 0, 1}).Draw(t, "side")}
+		}
 		if rapid.IntRange(0, 2).Draw(t, "batch") == 0 {
 			for i := rapid.IntRange(1, 3).Draw(t, "mates"); i > 0; i-- {
 				cell := simref.DrawCell(t, name)
@@ -247,41 +256,6 @@ func check(c Case) (r pbt.Result) {
 		return hit, ""
 	}
 	hit, fail := compare(seg, st)
-	if fail != "" && name == "Sacramento" && len(c.Splits) <= 3 {
-		// Round-off at a discontinuity.  Sacramento keeps its two lower-zone free-water stores multiplied by
-		// (1+side) inside a call and divides on return, so a value carried over a split differs from the one kept
-		// inside an uninterrupted call by up to an ulp - round-off the property allows.  The kernel then takes
-		// floor((uzfwc*adj+pav)*0.2)+1 increments per step: an ulp can change that integer, and with it the
-		// result by far more than round-off (observed: 9e-9 relative in a store of 272 mm).  Such a difference is
-		// accepted only if moving the two carried stores by at most one ulp at the split points reproduces the
-		// uninterrupted run within the ordinary tolerance; a state that is lost or altered is not repaired by that.
-		nsp := len(c.Splits)
-		combos := 1
-		for i := 0; i < nsp; i++ {
-			combos *= 9
-		}
-		for code := 0; code < combos && fail != ""; code++ {
-			seg2, st2 := runSplit(func(sp int, carried []float64) {
-				d := code
-				for i := 0; i < sp; i++ {
-					d /= 9
-				}
-				d %= 9
-				for j, k := range []int{3, 4} {
-					switch (d / [2]int{1, 3}[j]) % 3 {
-					case 1:
-						carried[k] = math.Nextafter(carried[k], math.Inf(1))
-					case 2:
-						carried[k] = math.Nextafter(carried[k], math.Inf(-1))
-					}
-				}
-			})
-			if h2, f2 := compare(seg2, st2); f2 == "" {
-				hit, fail = h2, ""
-				r.Label("sacramento:round-off-at-a-discontinuity")
-			}
-		}
-	}
 	if hit != "" {
 		r.Hit = append(r.Hit, hit)
 	}
